@@ -12,7 +12,7 @@ WALLCLOCK_ROWS = {'walltime', 'walltime_last_steps'}
 def rewritten_pointer_members():
     """{row name: {member, ...}} pointer members that reb_input_fields rewrites after loading (finish_fields tail)."""
     tu = cfront.load_tu('input.c')
-    fn = tu.func('reb_input_fields')
+    fn = tu.family('reb_input_fields')
     out = {}
     for e in walk(cfront.body(fn)):
         if is_assign(e) and e['opcode'] == '=':
@@ -222,7 +222,7 @@ def rule_accumulation(ctx, rule='R17.5'):
 def rule_deep_copy(ctx):
     """R17.3: every pointer the reader fills is assigned from an allocation in the same function, never from the stream."""
     tu = cfront.load_tu('input.c')
-    fn = tu.func('reb_input_fields')
+    fn = tu.family('reb_input_fields')
     n = 0
     samples = []
     ALLOC = {'malloc', 'realloc', 'calloc', 'aligned_alloc'}
